@@ -387,6 +387,15 @@ func dnsZeroBitmap(b []uint32) bool {
 // with a non-zero bitmap lists one of its addresses).
 func (w *dnsWorld) c10OverlapProbes(e *dnsEntryObs) {
 	nb := w.entryBitmap[e.ptr]
+	// a refresh that changes nothing: same address list, same bitmap, replaced in place
+	for i := len(w.track.hist) - 1; i >= 0; i-- {
+		if h := w.track.hist[i]; h != e && h.raw == e.raw {
+			if !e.restored && h.replaced && h.removeStep == e.insertStep && len(e.ips) > 0 && fmt.Sprint(h.ips) == fmt.Sprint(e.ips) && fmt.Sprint(w.entryBitmap[h.ptr]) == fmt.Sprint(nb) && !dnsZeroBitmap(nb) {
+				w.s.Probe("dns.c10-in-place-refresh-with-identical-addresses-and-bitmap")
+			}
+			break
+		}
+	}
 	sharesWithOther := false
 	for _, o := range w.track.cur {
 		if o == e || o.raw == e.raw || dnsZeroBitmap(w.entryBitmap[o.ptr]) {
@@ -415,7 +424,7 @@ func (w *dnsWorld) c10OverlapProbes(e *dnsEntryObs) {
 		return
 	}
 	ob := w.entryBitmap[old.ptr]
-	if old.replaced && old.removeStep == e.insertStep {
+	if !e.restored && old.replaced && old.removeStep == e.insertStep {
 		switch {
 		case dnsZeroBitmap(nb) && !dnsZeroBitmap(ob):
 			w.overlapZeroed[e.raw] = true
